@@ -84,7 +84,7 @@ fn gen_step(rng: &mut Rng, macros: &[MacroDef], in_pipeline: bool) -> PStep {
             if args.iter().any(|(kk, _): &(String, Bind)| *kk == k) {
                 continue;
             }
-            args.push((k.clone(), bind(rng, &k, false)));
+            args.push((k.clone(), bind(rng, &k, true)));
         }
         Kind::Call(target, args)
     } else if rng.chance(0.15) {
